@@ -15,7 +15,8 @@ def run(ctx):
         "of 3 over a reduced one (1 000), evaluates the decision procedure of Resolver.tla (look-ups performed, ordered result, error) and its "
         "properties (literals never looked up, order kept, never empty); each case replayed into the real async_resolve_host with fakes for "
         "zeroconf and getaddrinfo and compared; ownership: invariants model-checked, every operation sequence of length <= 6 executed on the real "
-        "ZeroconfManager / _async_zeroconf_get_service_info and validated as a trace; distinct = distinct case / operation sequence"
+        "ZeroconfManager / _async_zeroconf_get_service_info and validated as a trace; distinct = distinct case / operation sequence; "
+        "LogName.tla: classification of addresses (bare / .local / other) and the log name, TLC-enumerated, compared with util's functions"
     )
     ctx.exhaustive = True
     for cfg in ["MC_Resolver_cases2.cfg", "MC_Resolver_cases3.cfg"]:
@@ -81,6 +82,21 @@ def run(ctx):
             ctx.violation(f"Reconnect/manager_zeroconf/{f['event']}", {"kind": "recon-trace", "family": "manager_zeroconf", **f})
         else:
             ctx.notes.append(f"manager mismatch outside C20 ({f['event']}) seen in family manager_zeroconf")
+    # the classification of configured addresses (bare / .local / other) that the resolution order rests on, and the
+    # log name built from it (LogName.tla: TLC enumerates name x addresses x connected address, the real util functions
+    # are called on the rendered strings).  A wrong class of an unambiguous address is C20's business; the log name is not.
+    from vf import lognamesim
+
+    lres = lognamesim.run(ctx)
+    ctx.evaluations += lres["n"]
+    ctx.distinct |= {("logname", i) for i in range(lres["n"])}
+    ctx.extra["logname_cases"] = {"build_log_name": lres["cases"], "classification": lres["classes"], "mismatches": len(lres["mismatches"])}
+    for m in lres["mismatches"]:
+        if m["kind"] == "class" and not m["addr"].endswith("."):
+            ctx.violation(f"LogName/class/{m['addr']}", {"kind": "logname", **m})
+        else:
+            ctx.notes.append(f"util.{'build_log_name' if m['kind'] == 'logname' else 'classification'} deviates from LogName.tla (outside the listed properties), e.g. {json.dumps(m)[:200]}")
+            break
     ctx.notes[:] = sorted(set(ctx.notes))[:20]
     ctx.assumptions += [
         "a non-numeric IPv6 scope id maps to 0; an OS-resolver error for one host aborts the whole resolution with a connection error",
@@ -94,7 +110,11 @@ def replay(ctx, case):
 
         c18.replay(ctx, case)
         return
-    if case.get("kind") == "ownership":
+    if case.get("kind") == "logname":
+        from aioesphomeapi import util
+
+        print(case["addr"], util.host_is_name_part(case["addr"]), util.address_is_local(case["addr"]), "expected", case["expected"])
+    elif case.get("kind") == "ownership":
         rows = resolvesim.run_ownership(tuple(case["ops"]))
         print(rows)
     else:
